@@ -62,9 +62,11 @@ def genOp (r : Rng) (st : St) : Rng × Op :=
     let (r, n) := pick r spaceNames
     let (r, bs) := pickPaths r st
     let (r, k3) := r.next
-    (r, .newSpace par n (if k3 % 3 == 0 then [] else bs))
+    let (r, rn) := pick r names
+    let (r, k4) := r.next
+    (r, .newSpace par n (if k3 % 3 == 0 then [] else bs) (if k4 % 3 == 0 then [(rn, k4 % 7)] else if k4 % 11 == 1 then [("_bad", 1)] else []))
   | 2 => let (r, p) := pickPath r st; (r, .delSpace p)
-  | 3 | 4 => let (r, p) := pickPath r st; let (r, n) := pick r names; let (r, v) := r.next; (r, .newCells p n (v % 100))
+  | 3 | 4 => let (r, p) := pickPath r st; let (r, n) := pick r names; let (r, v) := r.next; (r, if v % 5 == 0 then .newCells p "_" (if v % 2 == 0 then n else "<lambda>") (v % 100) else .newCells p n n (v % 100))
   | 5 => let (r, p) := pickPath r st; let (r, n) := pick r names; let (r, v) := r.next; (r, .setFormula p n (v % 100))
   | 6 => let (r, p) := pickPath r st; let (r, n) := pick r names; (r, .delCells p n)
   | 7 => let (r, p) := pickPath r st; let (r, n) := pick r names; let (r, n2) := pick r names; (r, .renameCells p n n2)
@@ -87,7 +89,7 @@ partial def runOne (seed : Nat) (len : Nat) : Option (List Op × String) := Id.r
   for i in [0:len] do
     let (r', op0) := genOp r st
     r := r'
-    let op := if i < 3 then Op.newSpace [] (spaceNames[(seed + i) % 4]!) [] else op0
+    let op := if i < 3 then Op.newSpace [] (spaceNames[(seed + i) % 4]!) [] [] else op0
     let (st', ok) := st.step kw op
     if ok then
       ops := ops ++ [op]
